@@ -181,6 +181,19 @@ SkClaim(sk0, d, v, t) ==
         k == SKey(d, v)
     IN [sk EXCEPT !.sh[k].r = 0]
 
+(* StakeKeeper::slash by p = 1/2 ("half", explored only when every delegation to v is even, so that the scaled
+   shares stay whole) or p = 1 ("all"): rewards are brought up to date first and are kept; delegations and the
+   pending unbondings from v are scaled (unbondings rounded down); if nothing remains the entries are removed
+   together with their rewards *)
+SlashKeep(p, n) == IF p = "half" THEN n \div 2 ELSE 0
+SlashExact(sk, v, p) == p = "all" \/ \A k \in DOMAIN sk.sh : sk.sh[k].v = v => sk.sh[k].s % 2 = 0
+SkSlash(sk0, v, p, t) ==
+    LET sk == SkUpdateRewards(sk0, v, t)
+        scaled == [k \in DOMAIN sk.sh |-> IF sk.sh[k].v = v THEN [sk.sh[k] EXCEPT !.s = SlashKeep(p, @)] ELSE sk.sh[k]]
+        gone == {k \in DOMAIN scaled : scaled[k].v = v /\ scaled[k].s = 0}
+    IN [sk EXCEPT !.sh = [k \in DOMAIN scaled \ gone |-> scaled[k]],
+                  !.q = [i \in 1..Len(sk.q) |-> IF sk.q[i].v = v THEN [sk.q[i] EXCEPT !.amt = SlashKeep(p, @)] ELSE sk.q[i]]]
+
 SkReceiver(sk, d) == IF d \in DOMAIN sk.wa THEN sk.wa[d] ELSE d
 
 (* what queries show at time t: "d|v" -> <<delegation, accumulated reward in whole tokens>> *)
@@ -201,6 +214,7 @@ ApplyEff(st, e) ==
       [] e.e = "sk_remove" -> [st EXCEPT !.sk = SkRemove(@, e.d, e.v, e.a, e.t).sk]
       [] e.e = "sk_queue"  -> [st EXCEPT !.sk.q = Append(@, [d |-> e.d, v |-> e.v, amt |-> e.a, at |-> e.t + UnbondSecs])]
       [] e.e = "sk_claim"  -> [st EXCEPT !.sk = SkClaim(@, e.d, e.v, e.t)]
+      [] e.e = "sk_slash"  -> [st EXCEPT !.sk = SkSlash(@, e.v, e.p, e.t)]
       [] e.e = "sk_setw"   -> [st EXCEPT !.sk.wa = IF e.d = e.to THEN DelFn(@, e.d) ELSE PutFn(@, e.d, e.to)]
 
 RECURSIVE ApplyEffs(_, _)
@@ -494,6 +508,12 @@ RunTx(st, codes, block, call, sc) ==
                                                SysEntry(<<[e |-> "mint", to |-> call.to, coins |-> call.coins]>>, "mint")),
                                   ok |-> TRUE, resps |-> <<[ev |-> <<>>, data |-> NoData]>>]
                     ELSE [x |-> x0, ok |-> FALSE, resps |-> <<>>]
+               [] call.k = "sudo_slash" ->          \* App::sudo(SudoMsg::Staking(StakingSudo::Slash)); p above one is "over"
+                    IF call.p = "over" \/ call.v \notin Validators \/ Mods["staking"] # "real"
+                    THEN [x |-> x0, ok |-> FALSE, resps |-> <<>>]
+                    ELSE [x |-> AddLog([x0 EXCEPT !.st.sk = SkSlash(@, call.v, call.p, block.t)],
+                                       SysEntry(<<[e |-> "sk_slash", v |-> call.v, p |-> call.p, t |-> block.t]>>, "slash")),
+                          ok |-> TRUE, resps |-> <<[ev |-> <<>>, data |-> NoData]>>]
         xf == IF r.ok THEN r.x ELSE Kill(r.x, 1)
     IN [need |-> r.x.need, info |-> r.x.info, ok |-> r.ok, resps |-> r.resps,
         post |-> IF r.ok THEN r.x.st ELSE st, log |-> xf.log, rlog |-> r.x.rlog, used |-> r.x.pos - 1]
